@@ -254,6 +254,7 @@ func c14Explore(p detProg, kinds string, bound int, shard, nshards int, r *Resul
 	d0 := detRun(p)
 	base = &d0
 	res := vsched.Explore(cfg, func() { last = detRun(p) }, func(choices []int, c *vsched.Chooser) bool {
+		r.Beat()
 		r.Distinct(p.Name + "|" + last.key())
 		if last.key() != base.key() {
 			// the deviating site(s)
